@@ -42,11 +42,61 @@ FRESH_METHODS = {"copy", "astype", "conj", "conjugate", "sum", "mean", "round", 
                  "cumsum", "clip", "repeat", "item", "to_cpu", "to_gpu"}
 
 
+def all_scopes(repo: Repo):
+    """Every function of the package including nested definitions (nested ones as FuncInfo without class)."""
+    for f in repo.all_functions():
+        yield f
+        stack = [f.node]
+        while stack:
+            n = stack.pop()
+            for c in ast.iter_child_nodes(n):
+                if isinstance(c, (ast.FunctionDef, ast.AsyncFunctionDef)) and c is not f.node:
+                    yield FuncInfo(f.module, c, None)
+                    stack.append(c)
+                elif not isinstance(c, (ast.ClassDef, ast.Lambda)):
+                    stack.append(c)
+
+
 class Ownership:
-    def __init__(self, repo: Repo, depth: int = 3):
+    def __init__(self, repo: Repo, depth: int = 5):
         self.repo = repo
         self.depth = depth
         self._dfs: dict[int, DataFlow] = {}
+        self._nested: Optional[dict[str, list[FuncInfo]]] = None
+        self._methods: Optional[dict[str, list[FuncInfo]]] = None
+
+    def _index(self) -> None:
+        if self._nested is not None:
+            return
+        self._nested, self._methods = {}, {}
+        top = {id(f.node) for f in self.repo.all_functions()}
+        for f in all_scopes(self.repo):
+            if id(f.node) not in top:
+                self._nested.setdefault(f.name, []).append(f)
+            elif f.cls is not None and not f.is_property:
+                self._methods.setdefault(f.name, []).append(f)
+
+    def candidates(self, f: FuncInfo, e: ast.Call) -> tuple[list[FuncInfo], bool]:
+        """Package functions a call may reach -> (candidates, skip_self)."""
+        self._index()
+        fn = dotted(e.func)
+        if fn is not None:
+            t = self.repo.resolve_name(f.module, fn)
+            if isinstance(t, FuncInfo):
+                return [t], False
+            if isinstance(e.func, ast.Name) and fn in self._nested:
+                return self._nested[fn], False
+            if fn.startswith("self.") and fn.count(".") == 1 and f.cls is not None:
+                m = f.cls.find_method(fn[5:])
+                if m is not None:
+                    return [m], "staticmethod" not in m.decorators
+        if isinstance(e.func, ast.Attribute):
+            root = (dotted(e.func.value) or "").split(".")[0]
+            if root not in ("np", "xp", "cp", "numpy", "cupy", "da", "dask", "scipy", "math", "pd"):
+                ms = [m for m in self._methods.get(e.func.attr, []) if not m.is_abstract]
+                if 1 <= len(ms) <= 6:
+                    return ms, True
+        return [], False
 
     def df_of(self, f: FuncInfo) -> DataFlow:
         k = id(f.node)
@@ -87,7 +137,12 @@ class Ownership:
         rec = lambda x: self.classify_expr(f, node, x, _depth, seen)
         if isinstance(e, ast.Name):
             return self.classify(f, node, e.id, _depth, seen)
-        if isinstance(e, (ast.BinOp, ast.UnaryOp, ast.Compare, ast.BoolOp, ast.Constant, ast.List, ast.Tuple,
+        if isinstance(e, ast.Tuple):
+            out: set[str] = set()
+            for x in e.elts:
+                out |= rec(x)
+            return out or {FRESH}
+        if isinstance(e, (ast.BinOp, ast.UnaryOp, ast.Compare, ast.BoolOp, ast.Constant, ast.List,
                           ast.ListComp, ast.Dict, ast.JoinedStr)):
             return {FRESH}
         if isinstance(e, ast.IfExp):
@@ -121,46 +176,78 @@ class Ownership:
                 return rec(e.func.value)
             if name in VIEW_FUNCS and e.args:
                 return rec(e.args[0])
-            if name in ALLOCATORS:
+            if name in ALLOCATORS or fn in ("self.__class__", "type(self)"):
                 return {FRESH}
-            # package function: follow its returns
-            target = None
             if fn is not None:
-                t = self.repo.resolve_name(f.module, fn)
-                if isinstance(t, FuncInfo):
-                    target = t
-            if target is not None and _depth < self.depth:
+                from ..model import ClassInfo
+                if isinstance(self.repo.resolve_name(f.module, fn), ClassInfo):
+                    return {FRESH}  # constructor
+            # package function(s): follow the returns (class-hierarchy analysis for method calls)
+            targets, skip_self = self.candidates(f, e)
+            if targets and _depth < self.depth:
                 res: set[str] = set()
-                tdf = self.df_of(target)
-                rets = [r for r in walk_no_nested(target.node) if isinstance(r, ast.Return) and r.value is not None]
-                if not rets:
-                    return {UNKNOWN}
-                for r in rets:
-                    rn = tdf.cfg.node_of(r).idx
-                    for c in self.classify_expr(target, rn, r.value, _depth + 1, seen):
-                        if c.startswith("PARAM:"):
-                            # map the callee's parameter back to the argument expression
-                            p = c[6:]
-                            arg = self._arg_for(e, target, p)
-                            res |= rec(arg) if arg is not None else {UNKNOWN}
-                        else:
-                            res.add(c)
-                return res
+                for target in targets:
+                    tdf = self.df_of(target)
+                    rets = [r for r in walk_no_nested(target.node) if isinstance(r, ast.Return) and r.value is not None]
+                    if not rets:
+                        res.add(FRESH)
+                        continue
+                    sself = skip_self and "staticmethod" not in target.decorators
+                    for r in rets:
+                        rn = tdf.cfg.node_of(r).idx
+                        for c in self.classify_expr(target, rn, r.value, _depth + 1, seen):
+                            if c.startswith("PARAM:"):
+                                p = c[6:]
+                                if sself and target.positional_params and p == target.positional_params[0]:
+                                    res |= rec(e.func.value) if isinstance(e.func, ast.Attribute) else {UNKNOWN}
+                                    continue
+                                arg = self._arg_for(e, target, p, sself)
+                                if arg is not None:
+                                    res |= rec(arg)
+                                elif p in target.positional_params and p not in target.defaults():
+                                    res.add(UNKNOWN)
+                                # else: an option with a default / **kwargs that the call does not pass
+                            elif c.startswith("ATTR:") and isinstance(e.func, ast.Attribute):
+                                res.add("OBJ:" + (dotted(e.func.value) or "?"))
+                            else:
+                                res.add(c)
+                return res or {FRESH}
             # unknown callee: may return one of its arguments, else something new
             res = set()
-            cands = list(e.args) + [k.value for k in e.keywords]
-            if isinstance(e.func, ast.Attribute) and dotted(e.func.value) not in ("np", "xp", "cp", "numpy", "cupy", "da"):
-                cands.append(e.func.value)
+            cands = list(e.args) + [k.value for k in e.keywords if k.arg is not None]
+            if isinstance(e.func, ast.Call):
+                res |= {c for c in rec(e.func) if c != FRESH}  # calling a returned object (an FFTW plan ...)
+            scalar = self._scalar_params(f)
+            df = self.df_of(f)
             for a in cands:
                 if isinstance(a, (ast.Name, ast.Attribute, ast.Subscript)):
+                    root = a
+                    while isinstance(root, (ast.Attribute, ast.Subscript)):
+                        root = root.value
+                    if isinstance(root, ast.Name) and not df.reaching(node, root.id):
+                        continue  # a global (function, module): not an array the call could hand back
+                    if isinstance(a, ast.Name) and a.id in scalar:
+                        continue  # a parameter annotated bool / str / int / float / dict
                     res |= {c for c in rec(a) if c != FRESH}
             res.add(FRESH)
             return res
         return {UNKNOWN}
 
     @staticmethod
-    def _arg_for(call: ast.Call, target: FuncInfo, param: str) -> Optional[ast.expr]:
-        params = target.positional_params
+    def _scalar_params(f: FuncInfo) -> set[str]:
+        out = set()
+        a = f.node.args
+        for x in a.posonlyargs + a.args + a.kwonlyargs + ([a.kwarg] if a.kwarg else []) + ([a.vararg] if a.vararg else []):
+            if x.annotation is not None and ast.unparse(x.annotation) in ("bool", "str", "int", "float", "dict",
+                                                                          "Callable"):
+                out.add(x.arg)
+        if a.kwarg:
+            out.add(a.kwarg.arg)
+        return out
+
+    @staticmethod
+    def _arg_for(call: ast.Call, target: FuncInfo, param: str, skip_self: bool = False) -> Optional[ast.expr]:
+        params = target.positional_params[1:] if skip_self else target.positional_params
         for p, a in zip(params, call.args):
             if p == param and not isinstance(a, ast.Starred):
                 return a
